@@ -13,20 +13,21 @@ import (
 // CmdSpec is a mutating command at command-line level; it can be rendered as CLI arguments for
 // the real klog and as tokens for the Lean driver's `cmd` op.
 type CmdSpec struct {
-	Kind       string   `json:"kind"`
-	DateSel    string   `json:"date,omitempty"` // def|today|yesterday|tomorrow|d:<date text>
-	Time       string   `json:"time,omitempty"`
-	Round      int      `json:"round,omitempty"`
-	Summary    []string `json:"summary,omitempty"`
-	HasSummary bool     `json:"has_summary,omitempty"`
-	Resume     bool     `json:"resume,omitempty"`
-	ResumeNth  int      `json:"resume_nth,omitempty"`
-	Entry      []string `json:"entry,omitempty"`
-	Should     string   `json:"should,omitempty"`
-	ShouldMins int      `json:"should_mins,omitempty"`
-	NoTags     bool     `json:"no_tags,omitempty"`
-	Extend     bool     `json:"extend,omitempty"`
-	Ticks      []int    `json:"ticks,omitempty"`
+	Kind        string   `json:"kind"`
+	DateSel     string   `json:"date,omitempty"` // def|today|yesterday|tomorrow|d:<date text>
+	Time        string   `json:"time,omitempty"`
+	Round       int      `json:"round,omitempty"`
+	Summary     []string `json:"summary,omitempty"`
+	HasSummary  bool     `json:"has_summary,omitempty"`
+	Resume      bool     `json:"resume,omitempty"`
+	ResumeNth   int      `json:"resume_nth,omitempty"`
+	Entry       []string `json:"entry,omitempty"`
+	Should      string   `json:"should,omitempty"`
+	ShouldMins  int      `json:"should_mins,omitempty"`
+	ShouldAlias bool     `json:"should_alias,omitempty"` // spelled --should-total
+	NoTags      bool     `json:"no_tags,omitempty"`
+	Extend      bool     `json:"extend,omitempty"`
+	Ticks       []int    `json:"ticks,omitempty"`
 }
 
 type CfgSpec struct {
@@ -141,7 +142,11 @@ func (c CmdSpec) CLIArgs(file string) []string {
 		a = append(a, c.dateFlags()...)
 	case "create":
 		if c.Should != "" {
-			a = append(a, "--should="+c.Should+"!")
+			if c.ShouldAlias {
+				a = append(a, "--should-total="+c.Should+"!")
+			} else {
+				a = append(a, "--should="+c.Should+"!")
+			}
 		}
 		if c.HasSummary {
 			a = append(a, "--summary="+strings.Join(c.Summary, "\n"))
